@@ -25,6 +25,14 @@ CLAIMED = {
         note=E2_NOTE,
         engine="E2",
     ),
+    "C02": dict(
+        category="exploration",
+        technique="bounded exhaustive enumeration of wrapper programs (operator x kind x inner chain x closing mode x nesting x ~ placement) through the real macros vs the reference `.x(|v| v inner) rest` (differential, value + full trace)",
+        text="Each of the ten wrapper-capable operators on every kind it types on, with every inner chain up to the bound, every closing mode and `~` placement, nesting up to the bound, is expanded by the real macros and compared, value and full callback/capture trace, with the nested-closure reference on every input row.",
+        design_ref="DESIGN.md §4 C02",
+        note=E2_NOTE,
+        engine="E2",
+    ),
     "C03": dict(
         category="model_checking",
         technique="stateless model checking of the generated code: exhaustive enumeration of all orders of visible operations under a controlled (baton) thread scheduler, per depth profile",
@@ -73,6 +81,30 @@ CLAIMED = {
         note=E3A_NOTE,
         engine="E3-A",
     ),
+    "C11": dict(
+        category="exploration",
+        technique="bounded exhaustive enumeration of programs whose operands are block captures (typed chains, capture-dense multi-branch layouts, depth profiles in 8 macro kinds, wrappers) vs the hoisting reference (differential, trace order)",
+        text="Every typed chain up to the bound with ALL its expression operands and its initial value written as block captures, placed next to capture-dense branches (Process and Err operators, mirrored positions, distinct constants) with every `~` placement, plus capture-rich depth profiles in all 8 macro kinds and captures inside wrappers; the trace must show each capture once, after the previous step, before its step's expressions, in branch-then-position order, and the captured value must be the one used.",
+        design_ref="DESIGN.md §4 C11",
+        note=E2_NOTE,
+        engine="E2",
+    ),
+    "C12": dict(
+        category="exploration",
+        technique="bounded exhaustive enumeration of depth profiles x named-branch subsets x reader positions x macro kinds vs the reference (differential, snapshot values)",
+        text="Every non-empty subset of branches is named in every depth profile and macro kind, and every capture of every later step snapshots all names; the macro result must equal the reference (i.e. be unchanged by `let`) and every snapshot must be the named branch's latest completed step value.",
+        design_ref="DESIGN.md §4 C12",
+        note=E2_NOTE,
+        engine="E2",
+    ),
+    "C13": dict(
+        category="exploration",
+        technique="exhaustive fault enumeration over handler programs (kind x position x failure subsets) through the real macros vs the reference + exhaustive legality table through join_impl's entry points",
+        text="Handlers of every kind at every position over every depth profile and failure subset: called exactly once iff the reference says so, with the values in branch order and the documented wrapping, awaited in async macros; every (config, handler kind, position, optional second handler) combination is expanded in-process: rejection iff wrong kind or second handler.",
+        design_ref="DESIGN.md §4 C13",
+        note=E2_NOTE,
+        engine="E2+E1",
+    ),
     "C14": dict(
         category="exploration",
         technique="bounded exhaustive enumeration of rendered inputs (operator-instance chains, adversarial operands x positions x followers, branch/handler/let layouts) against the structure they were rendered from, in-process through join_impl's parser",
@@ -96,6 +128,14 @@ CLAIMED = {
         design_ref="DESIGN.md §4 C20",
         note=E3T_NOTE + " Interleavings are exhaustive only at hook granularity (hook commit 47e2b50, feature verif_hooks).",
         engine="E1+E3-T",
+    ),
+    "C16": dict(
+        category="exploration",
+        technique="exhaustive enumeration of option selections/orders/duplicates through the parser + bounded exhaustive enumeration of joiner programs (profiles x joiner forms x failure subsets) through the real macros vs the reference",
+        text="All ordered option selections with and without a duplicate; logging joiners (variadic macro, fixed-arity fn, lazy reverse-order, async) over every depth profile: one call per step with more than one active branch, arity, order; transpose_results(false) with joiner failures; futures_crate_path in a crate without a `futures` dependency.",
+        design_ref="DESIGN.md §4 C16",
+        note=E2_NOTE,
+        engine="E2+E1",
     ),
     "C18": dict(
         category="fault_enumeration",
